@@ -54,11 +54,21 @@ def build(flavour):
     W['SK'] = implementedBy(K)
     W['ob'] = K()
     W['ob2'] = K()
+    # a class chain without any interface: Z <- ZC <- ZS; an adapter can be
+    # registered for implementedBy(Z) itself, and narrowing ZC changes the
+    # __sro__ of ZS's specification but not its (empty) __iro__
+    Z = type('Z', (), {})
+    ZC = type('ZC', (Z,), {})
+    ZS = type('ZS', (ZC,), {})
+    W['ZC'] = ZC
+    W['SZ'] = implementedBy(Z)
+    W['SZS'] = implementedBy(ZS)
+    W['obz'] = ZS()
     W['D'] = Declaration(W['R1'])          # a plain declaration used as required spec
     W['top'] = cls()
     W['base'] = cls()
     W['reg'] = cls((W['base'],))
-    for t in 'abcdehg':
+    for t in 'abcdehgk':
         W['f' + t] = F(t)
     W['NONE'] = None               # provided=None: handlers
     return W
@@ -83,18 +93,22 @@ MUT += [('regbases', 'reg', ()), ('regbases', 'reg', ('base',)), ('regbases', 'r
 MUT += [('ibases', 'R1', ('R0',)), ('ibases', 'R1', ()), ('ibases', 'R1', ('X',)),
         ('ibases', 'R0', ('X',)), ('ibases', 'R0', ()),
         ('ibases', 'D', ('R0',)), ('ibases', 'D', ('X',)), ('ibases', 'D', ('R1',))]
+MUT += [('register', 'reg', ('SZ',), 'P', '', 'fk'), ('cio', 'ZC'), ('ci', 'ZC', 'X')]
 MUT += [('ci', 'K', 'R1'), ('ci', 'K', 'X'), ('cio', 'K', 'X'), ('cio', 'K'),
         ('dp', 'ob', 'R1'), ('dp', 'ob', 'X'), ('dp', 'ob'), ('nlp', 'ob', 'X'), ('gc',)]
 LOOK = []
-for key in (('R1',), ('R0',), ('D',), ('SK',)):
+for key in (('R1',), ('R0',)):
     LOOK += [('lookup', key, 'P', ''), ('lookup1', key, 'P', ''), ('lookupAll', key, 'P'),
              ('names', key, 'P'), ('subscriptions', key, 'P')]
+for key in (('D',), ('SK',)):      # a plain declaration / a class specification as key
+    LOOK += [('lookup', key, 'P', ''), ('lookupAll', key, 'P'), ('subscriptions', key, 'P')]
 LOOK += [('lookup', ('R1',), 'P', 'n'), ('lookup', ('R1', 'R0'), 'P', ''),
          ('lookup', ('R1', 'Y1'), 'P', ''), ('lookupAll', ('R1', 'Y1'), 'P'),
          ('queryAdapter', 'ob', 'P', ''), ('adapter_hook', 'ob', 'P', ''),
          ('queryMultiAdapter', 'ob', 'P', ''), ('subscribers', 'ob', 'P'),
          ('queryAdapter', 'ob2', 'P', ''), ('adapter_hook', 'ob', 'P1', ''),
-         ('subscriptions', ('R1',), 'NONE'), ('subscribers', 'ob', 'NONE')]
+         ('subscriptions', ('R1',), 'NONE'), ('subscribers', 'ob', 'NONE'),
+         ('queryAdapter', 'obz', 'P', ''), ('lookup', ('SZS',), 'P', '')]
 LOOKSET = set(LOOK)
 
 
@@ -313,6 +327,8 @@ def run(ctx):
     for impl in ('c', 'py'):
         for flavour in FLAVOURS:
             for shape in shapes:
+                if quick and flavour == 'verifying' and shape == 'LMMs':
+                    continue        # quick: the third shape on the push-invalidated flavour only
                 res = ctx.map(impl, 'evaluate',
                               [(flavour, shape, p, nparts) for p in range(nparts)])
                 tot = 0
